@@ -366,7 +366,12 @@ func dcModule(from, to int, parsed []dcCase, obsOf []map[string]any, srcOf []str
 	if err != nil {
 		return err
 	}
-	files := map[string]string{"go.mod": "module example.com/dc\n\ngo 1.24\n", "canon/canon.go": string(canonSrc),
+	// every second module declares an older language version (generated code may not need a newer language than its module has)
+	goVersion := "1.24"
+	if (from/max(1, to-from))%2 == 1 {
+		goVersion = "1.20"
+	}
+	files := map[string]string{"go.mod": "module example.com/dc\n\ngo " + goVersion + "\n", "canon/canon.go": string(canonSrc),
 		"rt/rt.go": "// Package rt declares the object interface.\npackage rt\n\n// Object can copy itself.\ntype Object interface {\n\tDeepCopyObject() Object\n}\n"}
 	var imports, body strings.Builder
 	patterns := []string{}
